@@ -390,3 +390,978 @@ Proof.
   intros H Hin Hl. unfold s3_level in H. apply s3_acc_concat in H. simpl in H. rewrite H.
   apply in_map. apply level_rows_In. split; assumption.
 Qed.
+
+(* ================================================================== *)
+(* Part 2a: one merge on the rows of a catalog                          *)
+(* ================================================================== *)
+Definition lev_rows (rows : list crow) (p : path) : option N := option_map r_level (find_row p rows).
+
+(* register the merged chunk, then complete_compaction: the sources go, the
+   target appears with level 1 + max (levels of the sources) *)
+Definition merged_rows (rows : list crow) (srcs : list path) (t : path) (m : cmeta) : list crow :=
+  filter (fun r => negb (memN (r_path r) srcs)) rows
+  ++ [mkRow t (max_level (lev_rows rows) srcs + 1) (m_min m) (m_size m)].
+
+Definition rows_ok (rows : list crow) (n : N) : Prop :=
+  NoDup (map r_path rows) /\ forall r, In r rows -> r_path r < n.
+
+Lemma max_level_fold_ext (lv lv' : path -> option N) srcs : forall acc,
+  (forall p, In p srcs -> lv p = lv' p) ->
+  fold_left (fun acc p => match lv p with Some l => N.max acc l | None => acc end) srcs acc =
+  fold_left (fun acc p => match lv' p with Some l => N.max acc l | None => acc end) srcs acc.
+Proof.
+  induction srcs as [|p t IH]; simpl; intros acc H; [reflexivity|].
+  rewrite (H p (or_introl eq_refl)). apply IH. intros q Hq. apply H. right; exact Hq.
+Qed.
+
+Lemma max_level_ext lv lv' srcs :
+  (forall p, In p srcs -> lv p = lv' p) -> max_level lv srcs = max_level lv' srcs.
+Proof. unfold max_level. apply max_level_fold_ext. Qed.
+
+Lemma max_level_fold_const (lv : path -> option N) L srcs : forall acc,
+  (forall p, In p srcs -> lv p = Some L) ->
+  fold_left (fun acc p => match lv p with Some l => N.max acc l | None => acc end) srcs acc =
+  match srcs with [] => acc | _ => N.max acc L end.
+Proof.
+  induction srcs as [|p t IH]; simpl; intros acc H; [reflexivity|].
+  rewrite (H p (or_introl eq_refl)). rewrite IH by (intros q Hq; apply H; right; exact Hq).
+  destruct t; [reflexivity|]. rewrite <- N.max_assoc, N.max_id. reflexivity.
+Qed.
+
+Lemma max_level_const lv L srcs :
+  srcs <> [] -> (forall p, In p srcs -> lv p = Some L) -> max_level lv srcs = L.
+Proof.
+  intros Hne H. unfold max_level. rewrite (max_level_fold_const lv L srcs 0 H).
+  destruct srcs; [contradiction|]. apply N.max_r. apply N.le_0_l.
+Qed.
+
+Lemma filter_length_split {A} (f : A -> bool) (l : list A) :
+  (length (filter f l) + length (filter (fun x => negb (f x)) l) = length l)%nat.
+Proof.
+  induction l as [|a l IH]; simpl; [reflexivity|]. destruct (f a); simpl; lia.
+Qed.
+
+Lemma count_split rows g :
+  NoDup (map r_path rows) -> NoDup g -> (forall p, In p g -> In p (map r_path rows)) ->
+  (length (filter (fun r => negb (memN (r_path r) g)) rows) + length g = length rows)%nat.
+Proof.
+  intros Hnd Hg Hsub.
+  pose proof (filter_length_split (fun r => memN (r_path r) g) rows) as Hs.
+  assert (Hl : length (filter (fun r => memN (r_path r) g) rows) = length g).
+  { rewrite <- (map_length r_path). apply Permutation_length. apply NoDup_Permutation.
+    - apply nodup_map_filter. exact Hnd.
+    - exact Hg.
+    - intros p. rewrite in_map_iff. split.
+      + intros [r [Hp Hin]]. apply filter_In in Hin. destruct Hin as [_ Hm]. apply memN_In in Hm.
+        subst p. exact Hm.
+      + intros Hp. specialize (Hsub p Hp). apply in_map_iff in Hsub. destruct Hsub as [r [Hr Hin]].
+        exists r. split; [exact Hr|]. apply filter_In. split; [exact Hin|].
+        apply memN_In. rewrite Hr. exact Hp. }
+  lia.
+Qed.
+
+Lemma filter_filter_comm {A} (f g : A -> bool) (l : list A) :
+  filter f (filter g l) = filter g (filter f l).
+Proof.
+  induction l as [|a l IH]; simpl; [reflexivity|].
+  destruct (f a) eqn:Ef, (g a) eqn:Eg; simpl; rewrite ?Ef, ?Eg, IH; reflexivity.
+Qed.
+
+Lemma filter_length_le {A} (f : A -> bool) (l : list A) : (length (filter f l) <= length l)%nat.
+Proof. induction l as [|a l IH]; simpl; [lia|]. destruct (f a); simpl; lia. Qed.
+
+(* a group whose merge strictly decreases the measure: at least two members,
+   or at least one member and all of them at level 0 *)
+Definition good_group (g : list path) (rows : list crow) : Prop :=
+  (2 <= length g)%nat \/
+  (g <> [] /\ forall p, In p g -> exists r, In r rows /\ r_path r = p /\ r_level r = 0).
+
+Lemma measure_merged rows g t m :
+  NoDup (map r_path rows) -> NoDup g -> (forall p, In p g -> In p (map r_path rows)) ->
+  good_group g rows ->
+  (measure_rows (merged_rows rows g t m) + 1 <= measure_rows rows)%nat.
+Proof.
+  intros Hnd Hg Hsub Hgood. unfold measure_rows, merged_rows.
+  rewrite filter_app, !app_length. cbn [filter r_level length].
+  replace (N.eqb (max_level (lev_rows rows) g + 1) 0) with false
+    by (symmetry; apply N.eqb_neq; lia).
+  cbn [length]. pose proof (count_split rows g Hnd Hg Hsub) as Hc.
+  rewrite filter_filter_comm.
+  set (keep := fun r : crow => negb (memN (r_path r) g)) in *.
+  set (l0 := fun r : crow => N.eqb (r_level r) 0) in *.
+  destruct Hgood as [H2|[Hne H0]].
+  - pose proof (filter_length_le keep (filter l0 rows)). lia.
+  - assert (Hc0 : (length (filter keep (filter l0 rows)) + length g = length (filter l0 rows))%nat).
+    { apply count_split; [apply nodup_map_filter; exact Hnd|exact Hg|].
+      intros p Hp. destruct (H0 p Hp) as [r [Hr [Hpr Hl]]]. apply in_map_iff. exists r.
+      split; [exact Hpr|]. apply filter_In. split; [exact Hr|]. unfold l0. apply N.eqb_eq. exact Hl. }
+    assert (1 <= length g)%nat by (destruct g; [contradiction|simpl; lia]). lia.
+Qed.
+
+(* the events of a cycle that the property talks about *)
+Definition ev_ok (ev : list cevent) : Prop :=
+  forall e, In e ev ->
+    match e with
+    | EPending _ => True
+    | ESel lvl seen gs => NoDup (map r_path seen) /\ sel_ok (u32_of lvl) seen gs
+    | EMerge lvl g t m nl =>
+        g <> [] /\ nl = Some (u32_of lvl + 1) /\ exists seen gs, In (ESel lvl seen gs) ev /\ In g gs
+    end.
+
+Lemma ev_ok_app a b : ev_ok a -> ev_ok b -> ev_ok (a ++ b).
+Proof.
+  intros Ha Hb e He. apply in_app_or in He. destruct He as [He|He].
+  - specialize (Ha e He). destruct e; try exact Ha.
+    destruct Ha as [A1 [A2 [seen [gs [A3 A4]]]]]. split; [exact A1|split; [exact A2|]].
+    exists seen, gs. split; [apply in_or_app; left; exact A3|exact A4].
+  - specialize (Hb e He). destruct e; try exact Hb.
+    destruct Hb as [A1 [A2 [seen [gs [A3 A4]]]]]. split; [exact A1|split; [exact A2|]].
+    exists seen, gs. split; [apply in_or_app; right; exact A3|exact A4].
+Qed.
+
+Lemma ev_ok_nil : ev_ok [].
+Proof. intros e []. Qed.
+
+Lemma merges_of_app a b : merges_of (a ++ b) = (merges_of a + merges_of b)%nat.
+Proof. unfold merges_of. rewrite filter_app, app_length. reflexivity. Qed.
+
+Lemma min_group_ge2 : 2 <= Consts.COMPACT_LEVEL_MIN_GROUP.
+Proof. vm_compute. discriminate. Qed.
+
+Lemma u32_of_0 : u32_of 0 = 0.
+Proof. reflexivity. Qed.
+
+(* ================================================================== *)
+(* Part 2b: the cycle over an abstract backend                          *)
+(* ================================================================== *)
+Section Generic.
+  Context {C : Type}.
+  Variable B : backend C.
+  (* well-formedness of a catalog w.r.t. the fresh-path counter *)
+  Variable wf : C -> N -> Prop.
+  Hypothesis wf_rows : forall c n, wf c n -> rows_ok (b_rows B c) n.
+  Hypothesis merge_ok : forall c t srcs m, wf c t ->
+    (forall p, In p srcs -> In p (map r_path (b_rows B c))) ->
+    exists c2, b_complete B (b_register B c t m) srcs t = Some c2 /\
+               b_rows B c2 = merged_rows (b_rows B c) srcs t m /\ wf c2 (t + 1).
+  Hypothesis l0_ok : forall thr rows, NoDup (map r_path rows) ->
+    sel_ok 0 rows (b_l0 B thr rows) /\ forall g, In g (b_l0 B thr rows) -> g <> [].
+  Hypothesis level_ok : forall lvl tgt rows gs, NoDup (map r_path rows) ->
+    b_level B lvl tgt rows = Some gs -> sel_ok lvl rows gs.
+
+  Definition rows_of (st : cstate C) : list crow := b_rows B (st_cat st).
+  Definition Inv (st : cstate C) : Prop := wf (st_cat st) (st_fresh st).
+  Definition lev (st : cstate C) (p : path) : option N := lev_rows (rows_of st) p.
+
+  (* a later state: every row is an old row (unchanged) or carries a path that
+     was still unused *)
+  Definition step_rel (st st' : cstate C) : Prop :=
+    st_fresh st <= st_fresh st' /\
+    forall r, In r (rows_of st') -> In r (rows_of st) \/ st_fresh st <= r_path r.
+
+  Lemma step_rel_refl st : step_rel st st.
+  Proof. split; [apply N.le_refl|intros r Hr; left; exact Hr]. Qed.
+
+  Lemma step_rel_trans a b c : step_rel a b -> step_rel b c -> step_rel a c.
+  Proof.
+    intros [H1 H2] [H3 H4]. split; [lia|]. intros r Hr.
+    destruct (H4 r Hr) as [Hb|Hb]; [exact (H2 r Hb)|right; lia].
+  Qed.
+
+  Definition gs_live (gs : list (list path)) (rows : list crow) (L : N) : Prop :=
+    NoDup (concat gs) /\ (forall g, In g gs -> g <> []) /\
+    forall g p, In g gs -> In p g -> exists r, In r rows /\ r_path r = p /\ r_level r = L.
+
+  Definition gs_good (gs : list (list path)) (L : N) : Prop :=
+    L = 0 \/ forall g, In g gs -> (2 <= length g)%nat.
+
+  Lemma run_groups_spec oracle lvl L : forall gs st,
+    Inv st -> gs_live gs (rows_of st) L -> gs_good gs L ->
+    match run_groups B oracle lvl gs st with
+    | (st', s, ev) =>
+        s = CSOk /\ Inv st' /\ step_rel st st' /\
+        (measure B st' + length gs <= measure B st)%nat /\
+        merges_of ev = length gs /\
+        (gs = [] -> st' = st) /\
+        forall e, In e ev -> exists g t m,
+            e = EMerge lvl g t m (Some (L + 1)) /\ In g gs /\ st_fresh st <= t
+    end.
+  Proof.
+    induction gs as [|g rest IH]; intros st HI Hlive Hgood.
+    - simpl. split; [reflexivity|]. split; [exact HI|]. split; [apply step_rel_refl|].
+      split; [lia|]. split; [reflexivity|]. split; [reflexivity|]. intros e [].
+    - destruct Hlive as [Hnd [Hne Hmem]]. simpl in Hnd. apply nodup_app_iff in Hnd.
+      destruct Hnd as [Hndg [Hndr Hdisj]].
+      destruct (wf_rows _ _ HI) as [Hrnd Hrb]. fold (rows_of st) in Hrnd, Hrb.
+      assert (Hsub : forall p, In p g -> In p (map r_path (rows_of st))).
+      { intros p Hp. destruct (Hmem g p (or_introl eq_refl) Hp) as [r [Hr [Hpr _]]].
+        apply in_map_iff. exists r. split; assumption. }
+      destruct (merge_ok (st_cat st) (st_fresh st) g (oracle g) HI Hsub) as [c2 [Hc [Hrows Hwf2]]].
+      cbn [run_groups]. rewrite Hc.
+      set (t := st_fresh st) in *. set (m := oracle g) in *.
+      set (st1 := mkSt c2 (t + 1)).
+      assert (HI1 : Inv st1) by exact Hwf2.
+      assert (Hrows1 : rows_of st1 = merged_rows (rows_of st) g t m) by exact Hrows.
+      assert (Hkeep : forall r, In r (rows_of st) -> ~ In (r_path r) g -> In r (rows_of st1)).
+      { intros r Hr Hng. rewrite Hrows1. unfold merged_rows. apply in_or_app; left.
+        apply filter_In. split; [exact Hr|]. apply negb_true_iff. apply memN_false. exact Hng. }
+      assert (Hlive1 : gs_live rest (rows_of st1) L).
+      { split; [exact Hndr|split].
+        - intros g' Hg'. apply Hne. right; exact Hg'.
+        - intros g' p Hg' Hp. destruct (Hmem g' p (or_intror Hg') Hp) as [r [Hr [Hpr Hl]]].
+          exists r. split; [|split; assumption]. apply Hkeep; [exact Hr|].
+          rewrite Hpr. intros Hc'. apply (Hdisj p Hc'). apply in_concat. exists g'. split; assumption. }
+      assert (Hgood1 : gs_good rest L).
+      { destruct Hgood as [H0|H2]; [left; exact H0|right; intros g' Hg'; apply H2; right; exact Hg']. }
+      specialize (IH st1 HI1 Hlive1 Hgood1).
+      destruct (run_groups B oracle lvl rest st1) as [[st' s] ev] eqn:E.
+      destruct IH as [Hs [HI' [Hstep [Hmeas [Hmer [_ Hev]]]]]].
+      assert (Hlev : forall p, In p g -> lev_rows (rows_of st) p = Some L).
+      { intros p Hp. destruct (Hmem g p (or_introl eq_refl) Hp) as [r [Hr [Hpr Hl]]].
+        unfold lev_rows. rewrite <- Hpr, (find_row_nodup _ _ Hrnd Hr). simpl. rewrite Hl. reflexivity. }
+      assert (Hgne : g <> []) by (apply Hne; left; reflexivity).
+      assert (Hnew : level_in B c2 t = Some (L + 1)).
+      { unfold level_in. change (b_rows B c2) with (rows_of st1). rewrite Hrows1. unfold merged_rows.
+        rewrite find_row_app_r.
+        - cbn [find_row r_path]. rewrite N.eqb_refl. cbn [option_map r_level].
+          rewrite (max_level_const _ L g Hgne Hlev). reflexivity.
+        - intros Hc'. apply in_map_iff in Hc'. destruct Hc' as [r [Hpr Hr]]. apply filter_In in Hr.
+          destruct Hr as [Hr _]. specialize (Hrb r Hr). lia. }
+      assert (Hstep1 : step_rel st st1).
+      { split; [unfold st1; simpl; fold t; lia|]. intros r Hr. rewrite Hrows1 in Hr. unfold merged_rows in Hr.
+        apply in_app_or in Hr. destruct Hr as [Hr|[Hr|[]]].
+        - left. apply filter_In in Hr. apply Hr.
+        - right. subst r. simpl. fold t. lia. }
+      split; [exact Hs|]. split; [exact HI'|]. split; [exact (step_rel_trans _ _ _ Hstep1 Hstep)|].
+      split.
+      { assert (Hm1 : (measure B st1 + 1 <= measure B st)%nat).
+        { unfold measure. change (b_rows B (st_cat st1)) with (rows_of st1).
+          change (b_rows B (st_cat st)) with (rows_of st). rewrite Hrows1.
+          apply measure_merged; [exact Hrnd|exact Hndg|exact Hsub|].
+          destruct Hgood as [H0|H2]; [right|left; apply H2; left; reflexivity].
+          split; [exact Hgne|]. intros p Hp.
+          destruct (Hmem g p (or_introl eq_refl) Hp) as [r [Hr [Hpr Hl]]].
+          exists r. split; [exact Hr|split; [exact Hpr|rewrite Hl; exact H0]]. }
+        cbn [length]. lia. }
+      split; [unfold merges_of in *; cbn [filter is_merge length]; rewrite Hmer; reflexivity|].
+      split; [discriminate|].
+      intros e [He|He].
+      + subst e. exists g, t, m. rewrite Hnew. split; [reflexivity|split; [left; reflexivity|apply N.le_refl]].
+      + destruct (Hev e He) as [g' [t' [m' [A1 [A2 A3]]]]]. exists g', t', m'.
+        split; [exact A1|split; [right; exact A2|]]. unfold st1 in A3. simpl in A3. lia.
+  Qed.
+
+  (* the rows a candidate call of a pass has seen are rows of the state the
+     pass started from, or rows of chunks created since *)
+  Definition sel_from (st : cstate C) (ev : list cevent) : Prop :=
+    forall lvl seen gs, In (ESel lvl seen gs) ev ->
+      forall r, In r seen -> In r (rows_of st) \/ st_fresh st <= r_path r.
+
+  (* what every pass (and the whole cycle) guarantees *)
+  Definition pass_ok (st : cstate C) (res : cstate C * cstatus * list cevent) : Prop :=
+    match res with
+    | (st', s, ev) =>
+        s <> CSErr /\ Inv st' /\ step_rel st st' /\
+        (measure B st' + merges_of ev <= measure B st)%nat /\
+        (merges_of ev = O -> st' = st) /\ ev_ok ev /\ sel_from st ev
+    end.
+
+  Lemma pass_ok_idle st s : Inv st -> s <> CSErr -> pass_ok st (st, s, []).
+  Proof.
+    intros HI Hs. split; [exact Hs|]. split; [exact HI|]. split; [apply step_rel_refl|].
+    split; [change (merges_of []) with O; rewrite Nat.add_0_r; apply Nat.le_refl|].
+    split; [reflexivity|]. split; [apply ev_ok_nil|intros lvl seen gs []].
+  Qed.
+
+  Lemma pass_ok_trans st st1 s1 ev1 st2 s2 ev2 :
+    pass_ok st (st1, s1, ev1) -> pass_ok st1 (st2, s2, ev2) -> pass_ok st (st2, s2, ev1 ++ ev2).
+  Proof.
+    intros [_ [_ [A3 [A4 [A5 [A6 A7]]]]]] [B1 [B2 [B3 [B4 [B5 [B6 B7]]]]]].
+    split; [exact B1|split; [exact B2|split; [exact (step_rel_trans _ _ _ A3 B3)|]]].
+    rewrite merges_of_app. split; [lia|split; [|split; [apply ev_ok_app; assumption|]]].
+    - intros H0. assert (merges_of ev1 = O) by lia. assert (merges_of ev2 = O) by lia.
+      rewrite (B5 ltac:(assumption)). apply A5. assumption.
+    - intros lvl seen gs He r Hr. apply in_app_or in He. destruct He as [He|He].
+      + exact (A7 lvl seen gs He r Hr).
+      + destruct (B7 lvl seen gs He r Hr) as [H|H].
+        * destruct A3 as [_ A3]. exact (A3 r H).
+        * right. destruct A3 as [A3 _]. lia.
+  Qed.
+
+  Lemma cap_groups_cases gs : cap_groups gs = gs \/ cap_groups gs = [].
+  Proof. unfold cap_groups. destruct has_capacity; [left|right]; reflexivity. Qed.
+
+  Lemma gs_live_cap gs rows L : gs_live gs rows L -> gs_live (cap_groups gs) rows L.
+  Proof.
+    intros H. destruct (cap_groups_cases gs) as [->| ->]; [exact H|].
+    split; [constructor|split; [intros g []|intros g p []]].
+  Qed.
+
+  Lemma gs_good_cap gs L : gs_good gs L -> gs_good (cap_groups gs) L.
+  Proof.
+    intros H. destruct (cap_groups_cases gs) as [->| ->]; [exact H|].
+    destruct H as [H|H]; [left; exact H|right; intros g []].
+  Qed.
+
+  Lemma in_cap_groups g gs : In g (cap_groups gs) -> In g gs.
+  Proof. destruct (cap_groups_cases gs) as [->| ->]; [tauto|intros []]. Qed.
+
+  (* shared tail of the two passes: selection done, groups [todo] (a part of
+     [gs]) are compacted *)
+  Lemma pass_after_selection oracle lvl rows gs todo st :
+    Inv st ->
+    NoDup (map r_path rows) -> (forall r, In r rows -> In r (rows_of st)) ->
+    sel_ok (u32_of lvl) rows gs ->
+    gs_live todo rows (u32_of lvl) -> gs_good todo (u32_of lvl) ->
+    (forall g, In g todo -> In g gs) ->
+    match run_groups B oracle lvl (cap_groups todo) st with
+    | (st', s, ev) => pass_ok st (st', s, ESel lvl rows gs :: ev)
+    end.
+  Proof.
+    intros HI Hnd Hsubrows Hsel Hlive Hgood Hsubgs.
+    assert (Hlive' : gs_live (cap_groups todo) (rows_of st) (u32_of lvl)).
+    { apply gs_live_cap. destruct Hlive as [A1 [A2 A3]]. split; [exact A1|split; [exact A2|]].
+      intros g p Hg Hp. destruct (A3 g p Hg Hp) as [r [Hr Hrest]]. exists r. split; [apply Hsubrows; exact Hr|exact Hrest]. }
+    pose proof (run_groups_spec oracle lvl (u32_of lvl) (cap_groups todo) st HI Hlive' (gs_good_cap _ _ Hgood)) as Hspec.
+    destruct (run_groups B oracle lvl (cap_groups todo) st) as [[st' s] ev].
+    destruct Hspec as [Hs [HI' [Hstep [Hmeas [Hmer [Hnil Hev]]]]]].
+    assert (Hmo : merges_of (ESel lvl rows gs :: ev) = merges_of ev) by reflexivity.
+    split; [rewrite Hs; discriminate|]. split; [exact HI'|]. split; [exact Hstep|].
+    rewrite Hmo. split; [lia|]. split; [|split].
+    - intros H0. apply Hnil. rewrite Hmer in H0. destruct (cap_groups todo); [reflexivity|discriminate].
+    - intros e [He|He].
+      + subst e. split; assumption.
+      + destruct (Hev e He) as [g [t [m [A1 [A2 A3]]]]]. subst e.
+        destruct Hlive as [_ [Hne _]]. apply in_cap_groups in A2.
+        split; [apply Hne; exact A2|]. split; [reflexivity|].
+        exists rows, gs. split; [left; reflexivity|apply Hsubgs; exact A2].
+    - intros lvl' seen' gs' [He|He] r Hr.
+      + inversion He; subst. left. apply Hsubrows. exact Hr.
+      + destruct (Hev _ He) as [g [t [m [A1 _]]]]. discriminate.
+  Qed.
+
+  Lemma l0_pass_ok cf oracle ord st : Inv st -> pass_ok st (l0_pass B cf oracle ord st).
+  Proof.
+    intros HI. unfold l0_pass. destruct (wf_rows _ _ HI) as [Hrnd _]. fold (rows_of st) in *.
+    set (rows := reorder ord (rows_of st)).
+    assert (Hnd : NoDup (map r_path rows)) by (apply reorder_nodup; exact Hrnd).
+    destruct (l0_ok (cf_threshold cf) rows Hnd) as [Hsel Hne].
+    set (gs := b_l0 B (cf_threshold cf) rows) in *.
+    assert (Hsub : forall r, In r rows -> In r (rows_of st)).
+    { intros r Hr. apply (reorder_In ord _ r Hrnd). exact Hr. }
+    pose proof (pass_after_selection oracle 0 rows gs gs st HI Hnd Hsub) as H.
+    rewrite u32_of_0 in H. specialize (H Hsel).
+    assert (Hlive : gs_live gs rows 0).
+    { destruct Hsel as [A1 A2]. split; [exact A1|split; [exact Hne|exact A2]]. }
+    specialize (H Hlive (or_introl eq_refl) (fun g Hg => Hg)).
+    destruct (run_groups B oracle 0 (cap_groups gs) st) as [[st' s] ev]. exact H.
+  Qed.
+
+  Lemma level_pass_ok cf oracle lvl ord st : Inv st -> pass_ok st (level_pass B cf oracle lvl ord st).
+  Proof.
+    intros HI. unfold level_pass.
+    destruct (target_size cf lvl) as [tgt|]; [|apply pass_ok_idle; [exact HI|discriminate]].
+    destruct (wf_rows _ _ HI) as [Hrnd _]. fold (rows_of st) in *.
+    set (rows := reorder ord (rows_of st)).
+    assert (Hnd : NoDup (map r_path rows)) by (apply reorder_nodup; exact Hrnd).
+    destruct (b_level B (u32_of lvl) tgt rows) as [gs|] eqn:Eg; [|apply pass_ok_idle; [exact HI|discriminate]].
+    pose proof (level_ok _ _ _ _ Hnd Eg) as Hsel.
+    assert (Hsub : forall r, In r rows -> In r (rows_of st)).
+    { intros r Hr. apply (reorder_In ord _ r Hrnd). exact Hr. }
+    set (todo := filter (fun g => Consts.COMPACT_LEVEL_MIN_GROUP <=? N.of_nat (length g)) gs).
+    assert (Hlen : forall g, In g todo -> (2 <= length g)%nat).
+    { intros g Hg. apply filter_In in Hg. destruct Hg as [_ Hg]. apply N.leb_le in Hg.
+      pose proof min_group_ge2. lia. }
+    assert (Hlive : gs_live todo rows (u32_of lvl)).
+    { destruct Hsel as [A1 A2]. split; [apply nodup_concat_filter; exact A1|split].
+      - intros g Hg. specialize (Hlen g Hg). destruct g; [simpl in Hlen; lia|discriminate].
+      - intros g p Hg Hp. apply filter_In in Hg. apply (A2 g p); [apply Hg|exact Hp]. }
+    pose proof (pass_after_selection oracle lvl rows gs todo st HI Hnd Hsub Hsel Hlive (or_intror Hlen)) as H.
+    assert (Hin : forall g, In g todo -> In g gs) by (intros g Hg; apply filter_In in Hg; apply Hg).
+    specialize (H Hin).
+    destruct (run_groups B oracle lvl (cap_groups todo) st) as [[st' s] ev]. exact H.
+  Qed.
+
+  Lemma levels_loop_ok cf oracle lvls : forall ords st,
+    Inv st -> pass_ok st (levels_loop B cf oracle lvls ords st).
+  Proof.
+    induction lvls as [|l r IH]; intros ords st HI; cbn [levels_loop].
+    - apply pass_ok_idle; [exact HI|discriminate].
+    - destruct has_capacity; [|apply pass_ok_idle; [exact HI|discriminate]].
+      pose proof (level_pass_ok cf oracle l (hd [] ords) st HI) as H1.
+      destruct (level_pass B cf oracle l (hd [] ords) st) as [[st1 s1] ev1].
+      destruct s1; try exact H1.
+      assert (HI1 : Inv st1) by apply H1.
+      specialize (IH (tl ords) st1 HI1).
+      destruct (levels_loop B cf oracle r (tl ords) st1) as [[st2 s2] ev2].
+      exact (pass_ok_trans _ _ _ _ _ _ _ H1 IH).
+  Qed.
+
+  Lemma pass_ok_pending st st' s ev n : pass_ok st (st', s, ev) -> pass_ok st (st', s, EPending n :: ev).
+  Proof.
+    intros [A1 [A2 [A3 [A4 [A5 [A6 A7]]]]]].
+    split; [exact A1|split; [exact A2|split; [exact A3|]]].
+    change (merges_of (EPending n :: ev)) with (merges_of ev).
+    split; [exact A4|split; [exact A5|split]].
+    - change (EPending n :: ev) with ([EPending n] ++ ev). apply ev_ok_app; [|exact A6].
+      intros e [He|[]]. subst e. exact I.
+    - intros lvl seen gs [He|He]; [discriminate|]. exact (A7 lvl seen gs He).
+  Qed.
+
+  Theorem cycle_ok i st : Inv st -> pass_ok st (cycle B i st).
+  Proof.
+    intros HI. unfold cycle.
+    pose proof (l0_pass_ok (in_cfg i) (in_oracle i) (hd [] (in_ords i)) st HI) as H1.
+    destruct (l0_pass B (in_cfg i) (in_oracle i) (hd [] (in_ords i)) st) as [[st1 s1] ev1].
+    destruct s1; try (apply pass_ok_pending; exact H1).
+    assert (HI1 : Inv st1) by apply H1.
+    pose proof (levels_loop_ok (in_cfg i) (in_oracle i) (levels_upto (cf_max_levels (in_cfg i)))
+                               (tl (in_ords i)) st1 HI1) as H2.
+    destruct (levels_loop B (in_cfg i) (in_oracle i) (levels_upto (cf_max_levels (in_cfg i)))
+                          (tl (in_ords i)) st1) as [[st2 s2] ev2].
+    apply pass_ok_pending. exact (pass_ok_trans _ _ _ _ _ _ _ H1 H2).
+  Qed.
+
+  Lemma cycle_facts i st : Inv st ->
+    Inv (cycle_state B i st) /\ step_rel st (cycle_state B i st) /\ (measure B (cycle_state B i st) + merges_of (cycle_events B i st) <= measure B st)%nat /\ (merges_of (cycle_events B i st) = O -> cycle_state B i st = st) /\ ev_ok (cycle_events B i st) /\ sel_from st (cycle_events B i st).
+  Proof.
+    intros HI. pose proof (cycle_ok i st HI) as H. unfold cycle_state, cycle_events.
+    destruct (cycle B i st) as [[st' s] ev]. simpl. destruct H as [_ H]. exact H.
+  Qed.
+
+  Lemma run_cycles_app h1 h2 st : run_cycles B (h1 ++ h2) st = run_cycles B h2 (run_cycles B h1 st).
+  Proof. unfold run_cycles. apply fold_left_app. Qed.
+
+  Lemma run_cycles_facts h : forall st, Inv st ->
+    Inv (run_cycles B h st) /\ step_rel st (run_cycles B h st).
+  Proof.
+    induction h as [|i r IH]; intros st HI; simpl.
+    - split; [exact HI|apply step_rel_refl].
+    - destruct (cycle_facts i st HI) as [HI1 [Hs1 _]]. destruct (IH _ HI1) as [HI2 Hs2].
+      split; [exact HI2|exact (step_rel_trans _ _ _ Hs1 Hs2)].
+  Qed.
+
+  (* ---- groups of one candidate call are disjoint and single-level ---- *)
+  Theorem groups_disjoint_single_level i st lvl seen gs :
+    Inv st -> In (ESel lvl seen gs) (cycle_events B i st) ->
+    NoDup (concat gs) /\
+    (forall g p, In g gs -> In p g -> exists r, In r seen /\ r_path r = p /\ r_level r = u32_of lvl) /\
+    NoDup (map r_path seen) /\
+    (forall r, In r seen -> In r (rows_of st) \/ st_fresh st <= r_path r).
+  Proof.
+    intros HI He. destruct (cycle_facts i st HI) as [_ [_ [_ [_ [Hev Hfrom]]]]].
+    destruct (Hev _ He) as [Hnd [H1 H2]]. split; [exact H1|split; [exact H2|split; [exact Hnd|]]].
+    exact (Hfrom lvl seen gs He).
+  Qed.
+
+  (* ---- every merge takes one of the selected groups and lifts it one level ---- *)
+  Theorem merge_level_rule i st lvl g t m nl :
+    Inv st -> In (EMerge lvl g t m nl) (cycle_events B i st) ->
+    g <> [] /\ nl = Some (u32_of lvl + 1) /\ exists seen gs, In (ESel lvl seen gs) (cycle_events B i st) /\ In g gs /\ forall p, In p g -> exists r, In r seen /\ r_path r = p /\ r_level r = u32_of lvl.
+  Proof.
+    intros HI He. destruct (cycle_facts i st HI) as [_ [_ [_ [_ [Hev _]]]]].
+    destruct (Hev _ He) as [Hne [Hnl [seen [gs [Hs Hg]]]]].
+    split; [exact Hne|split; [exact Hnl|]]. exists seen, gs. split; [exact Hs|split; [exact Hg|]].
+    destruct (Hev _ Hs) as [_ [_ Hmem]]. intros p Hp. exact (Hmem g p Hg Hp).
+  Qed.
+
+  (* ---- a path keeps its level while it is live, and never comes back ---- *)
+  Lemma lev_stable_step s s' p a b :
+    Inv s -> step_rel s s' -> Inv s' -> lev s p = Some a -> lev s' p = Some b -> a = b.
+  Proof.
+    intros HI [_ Hst] HI' Ha Hb. unfold lev, lev_rows in *.
+    destruct (find_row p (rows_of s)) as [r|] eqn:E; [|discriminate].
+    destruct (find_row p (rows_of s')) as [r'|] eqn:E'; [|discriminate].
+    simpl in Ha, Hb. inversion Ha; inversion Hb; subst.
+    destruct (wf_rows _ _ HI) as [Hnd Hb1]. fold (rows_of s) in *.
+    destruct (find_row_some _ _ _ E) as [Hin Hp]. destruct (find_row_some _ _ _ E') as [Hin' Hp'].
+    destruct (Hst r' Hin') as [Hold|Hnew].
+    - pose proof (find_row_nodup _ _ Hnd Hold) as Hf. rewrite Hp', E in Hf. inversion Hf; subst. reflexivity.
+    - specialize (Hb1 r Hin). rewrite Hp' in Hnew. rewrite Hp in Hb1. lia.
+  Qed.
+
+  Lemma lev_gone_step s s' p :
+    Inv s -> step_rel s s' -> p < st_fresh s -> lev s p = None -> lev s' p = None.
+  Proof.
+    intros HI [_ Hst] Hlt Hn. unfold lev, lev_rows in *.
+    destruct (find_row p (rows_of s')) as [r'|] eqn:E'; [|reflexivity]. exfalso.
+    destruct (find_row_some _ _ _ E') as [Hin' Hp'].
+    destruct (Hst r' Hin') as [Hold|Hnew]; [|rewrite Hp' in Hnew; lia].
+    destruct (find_row p (rows_of s)) as [r|] eqn:E; [discriminate|].
+    apply find_row_none in E. apply E. rewrite <- Hp'. apply in_map. exact Hold.
+  Qed.
+
+  Lemma lev_bound s p a : Inv s -> lev s p = Some a -> p < st_fresh s.
+  Proof.
+    intros HI Ha. unfold lev, lev_rows in Ha.
+    destruct (find_row p (rows_of s)) as [r|] eqn:E; [|discriminate].
+    destruct (find_row_some _ _ _ E) as [Hin Hp]. destruct (wf_rows _ _ HI) as [_ Hb].
+    rewrite <- Hp. apply Hb. exact Hin.
+  Qed.
+
+  Theorem level_monotone h1 h2 st p a b :
+    Inv st -> lev (run_cycles B h1 st) p = Some a -> lev (run_cycles B (h1 ++ h2) st) p = Some b ->
+    a = b.
+  Proof.
+    intros HI Ha Hb. rewrite run_cycles_app in Hb.
+    destruct (run_cycles_facts h1 st HI) as [HI1 _].
+    destruct (run_cycles_facts h2 _ HI1) as [HI2 Hs2].
+    exact (lev_stable_step _ _ p a b HI1 Hs2 HI2 Ha Hb).
+  Qed.
+
+  Theorem no_resurrection h1 h2 h3 st p a :
+    Inv st -> lev (run_cycles B h1 st) p = Some a -> lev (run_cycles B (h1 ++ h2) st) p = None ->
+    lev (run_cycles B (h1 ++ h2 ++ h3) st) p = None.
+  Proof.
+    intros HI Ha Hn. rewrite app_assoc, run_cycles_app.
+    destruct (run_cycles_facts h1 st HI) as [HI1 _].
+    pose proof (lev_bound _ _ _ HI1 Ha) as Hlt.
+    rewrite run_cycles_app in Hn |- *.
+    destruct (run_cycles_facts h2 _ HI1) as [HI2 [Hf2 _]].
+    destruct (run_cycles_facts h3 _ HI2) as [_ Hs3].
+    apply (lev_gone_step _ _ p HI2 Hs3); [lia|exact Hn].
+  Qed.
+
+  (* ---- convergence ---- *)
+  Theorem noop_cycle i st :
+    Inv st -> merges_of (cycle_events B i st) = O -> cycle_state B i st = st.
+  Proof. intros HI. apply (cycle_facts i st HI). Qed.
+
+  Theorem merging_cycle_decreases i st :
+    Inv st -> merges_of (cycle_events B i st) <> O ->
+    (measure B (cycle_state B i st) < measure B st)%nat.
+  Proof. intros HI Hm. destruct (cycle_facts i st HI) as [_ [_ [H _]]]. lia. Qed.
+
+  Theorem merges_bounded h : forall st,
+    Inv st -> (total_merges B h st + measure B (run_cycles B h st) <= measure B st)%nat.
+  Proof.
+    induction h as [|i r IH]; intros st HI; simpl; [lia|].
+    destruct (cycle_facts i st HI) as [HI1 [_ [Hm _]]]. specialize (IH _ HI1).
+    change (fold_left (fun s i0 => cycle_state B i0 s) r (cycle_state B i st))
+      with (run_cycles B r (cycle_state B i st)). lia.
+  Qed.
+
+  Theorem converges h : forall st,
+    Inv st -> (measure B st < length h)%nat ->
+    exists n, (n <= measure B st)%nat /\ (n < length h)%nat /\ run_cycles B (firstn (S n) h) st = run_cycles B (firstn n h) st.
+  Proof.
+    induction h as [|i r IH]; intros st HI Hlen; [simpl in Hlen; lia|].
+    destruct (Nat.eq_dec (merges_of (cycle_events B i st)) O) as [H0|Hn0].
+    - exists O. split; [lia|split; [simpl; lia|]]. simpl. apply noop_cycle; assumption.
+    - pose proof (merging_cycle_decreases i st HI Hn0) as Hdec.
+      destruct (cycle_facts i st HI) as [HI1 _].
+      destruct (IH (cycle_state B i st) HI1) as [n [Hn1 [Hn2 Hn3]]]; [simpl in Hlen; lia|].
+      exists (S n). split; [lia|split; [simpl; lia|]].
+      change (firstn (S (S n)) (i :: r)) with (i :: firstn (S n) r).
+      change (firstn (S n) (i :: r)) with (i :: firstn n r). exact Hn3.
+  Qed.
+
+  (* with one fixed input (fixed configuration, fixed hash order policy and
+     oracle) a cycle is a function: once it changes nothing it never will *)
+  Theorem fixpoint_forever i st n :
+    cycle_state B i (run_cycles B (repeat i n) st) = run_cycles B (repeat i n) st ->
+    forall k, run_cycles B (repeat i (n + k)) st = run_cycles B (repeat i n) st.
+  Proof.
+    intros Hfix k. rewrite repeat_app, run_cycles_app.
+    set (s := run_cycles B (repeat i n) st) in *.
+    induction k as [|k IHk]; simpl; [reflexivity|]. rewrite Hfix. exact IHk.
+  Qed.
+
+  Theorem converges_fixed i st :
+    Inv st -> exists n, (n <= measure B st)%nat /\ forall k, run_cycles B (repeat i (n + k)) st = run_cycles B (repeat i n) st.
+  Proof.
+    intros HI. destruct (converges (repeat i (S (measure B st))) st HI) as [n [Hn1 [Hn2 Hn3]]].
+    { rewrite repeat_length. lia. }
+    exists n. split; [exact Hn1|]. apply fixpoint_forever.
+    rewrite repeat_length in Hn2.
+    assert (Hf : forall a b, (a <= b)%nat -> firstn a (repeat i b) = repeat i a).
+    { induction a as [|a IHa]; intros b Hab; [reflexivity|]. destruct b; [lia|]. simpl. f_equal. apply IHa. lia. }
+    rewrite !Hf in Hn3 by lia.
+    replace (S n) with (n + 1)%nat in Hn3 by lia. rewrite repeat_app, run_cycles_app in Hn3. exact Hn3.
+  Qed.
+End Generic.
+
+(* ================================================================== *)
+(* Part 3a: association-list facts used by both backends                *)
+(* ================================================================== *)
+Section AListMore.
+  Context {V : Type}.
+
+  Lemma aset_absent k (v : V) l : ~ In k (map fst l) -> aset N.eqb k v l = l ++ [(k, v)].
+  Proof.
+    induction l as [|[k' v'] r IH]; simpl; intros H; [reflexivity|].
+    destruct (N.eqb k k') eqn:E.
+    - apply N.eqb_eq in E. exfalso. apply H. left; symmetry; exact E.
+    - rewrite IH; [reflexivity|]. intros Hc. apply H. right; exact Hc.
+  Qed.
+
+  Lemma aset_app_last k (v v0 : V) l :
+    ~ In k (map fst l) -> aset N.eqb k v (l ++ [(k, v0)]) = l ++ [(k, v)].
+  Proof.
+    induction l as [|[k' v'] r IH]; simpl; intros H; [rewrite N.eqb_refl; reflexivity|].
+    destruct (N.eqb k k') eqn:E.
+    - apply N.eqb_eq in E. exfalso. apply H. left; symmetry; exact E.
+    - rewrite IH; [reflexivity|]. intros Hc. apply H. right; exact Hc.
+  Qed.
+
+  Lemma aget_app_l k (l1 l2 : list (N * V)) :
+    In k (map fst l1) -> aget N.eqb k (l1 ++ l2) = aget N.eqb k l1.
+  Proof.
+    induction l1 as [|[k' v'] r IH]; simpl; [contradiction|].
+    destruct (N.eqb k k') eqn:E; [reflexivity|].
+    intros [H|H]; [apply N.eqb_neq in E; exfalso; apply E; symmetry; exact H|exact (IH H)].
+  Qed.
+
+  Lemma aget_app_r k (l1 l2 : list (N * V)) :
+    ~ In k (map fst l1) -> aget N.eqb k (l1 ++ l2) = aget N.eqb k l2.
+  Proof.
+    induction l1 as [|[k' v'] r IH]; simpl; [reflexivity|]. intros H.
+    destruct (N.eqb k k') eqn:E.
+    - apply N.eqb_eq in E. exfalso. apply H. left; symmetry; exact E.
+    - apply IH. intros Hc. apply H. right; exact Hc.
+  Qed.
+
+  Definition keep_not (srcs : list path) (kv : N * V) : bool := negb (memN (fst kv) srcs).
+
+  Lemma keep_not_true srcs k (v : V) : ~ In k srcs -> keep_not srcs (k, v) = true.
+  Proof. intros H. unfold keep_not. simpl. apply negb_true_iff. apply memN_false. exact H. Qed.
+
+  Lemma adel_filter k (l : list (N * V)) :
+    adel N.eqb k l = filter (fun kv => negb (N.eqb (fst kv) k)) l.
+  Proof.
+    induction l as [|[k' v'] r IH]; simpl; [reflexivity|].
+    rewrite (N.eqb_sym k' k). destruct (N.eqb k k'); simpl; rewrite IH; reflexivity.
+  Qed.
+
+  Lemma fold_adel_filter srcs : forall (l : list (N * V)),
+    fold_left (fun l p => adel N.eqb p l) srcs l = filter (keep_not srcs) l.
+  Proof.
+    induction srcs as [|p t IH]; simpl; intros l.
+    - symmetry. induction l as [|a l IHl]; [reflexivity|]. cbn [filter]. unfold keep_not at 1.
+      cbn [memN negb]. f_equal. exact IHl.
+    - rewrite IH, adel_filter. clear IH. induction l as [|[k v] l IHl]; simpl; [reflexivity|].
+      unfold keep_not at 2. simpl. destruct (N.eqb k p); simpl; [exact IHl|].
+      unfold keep_not at 1. simpl. destruct (memN k t); simpl; rewrite IHl; reflexivity.
+  Qed.
+
+  Lemma filter_keys_in srcs (l : list (N * V)) k :
+    In k (map fst (filter (keep_not srcs) l)) <-> In k (map fst l) /\ ~ In k srcs.
+  Proof.
+    rewrite !in_map_iff. split.
+    - intros [kv [Hk Hin]]. apply filter_In in Hin. destruct Hin as [Hin Hm].
+      unfold keep_not in Hm. apply negb_true_iff in Hm. apply memN_false in Hm. subst k.
+      split; [exists kv; split; [reflexivity|exact Hin]|exact Hm].
+    - intros [[kv [Hk Hin]] Hn]. exists kv. split; [exact Hk|]. apply filter_In. split; [exact Hin|].
+      unfold keep_not. apply negb_true_iff. apply memN_false. rewrite Hk. exact Hn.
+  Qed.
+
+  Lemma aget_filter_keep srcs (l : list (N * V)) k :
+    ~ In k srcs -> aget N.eqb k (filter (keep_not srcs) l) = aget N.eqb k l.
+  Proof.
+    intros Hn. induction l as [|[k' v'] r IH]; simpl; [reflexivity|].
+    unfold keep_not at 1. simpl. destruct (memN k' srcs) eqn:Em; simpl.
+    - destruct (N.eqb k k') eqn:E; [|exact IH].
+      apply N.eqb_eq in E. subst k'. apply memN_In in Em. contradiction.
+    - destruct (N.eqb k k'); [reflexivity|exact IH].
+  Qed.
+
+  Lemma adel_absent k (l : list (N * V)) : aget N.eqb k l = None -> adel N.eqb k l = l.
+  Proof.
+    induction l as [|[k' v'] r IH]; simpl; [reflexivity|].
+    destruct (N.eqb k k'); [discriminate|]. intros H. rewrite (IH H). reflexivity.
+  Qed.
+
+  Lemma aget_none_keys k (l : list (N * V)) : ~ In k (map fst l) -> aget N.eqb k l = None.
+  Proof.
+    induction l as [|[k' v'] r IH]; simpl; [reflexivity|]. intros H.
+    destruct (N.eqb k k') eqn:E.
+    - apply N.eqb_eq in E. exfalso. apply H. left; symmetry; exact E.
+    - apply IH. intros Hc. apply H. right; exact Hc.
+  Qed.
+
+  Lemma nodup_filter_keys srcs (l : list (N * V)) :
+    NoDup (map fst l) -> NoDup (map fst (filter (keep_not srcs) l)).
+  Proof. apply nodup_map_filter. Qed.
+End AListMore.
+
+Lemma next_free_bound keys : forall acc p,
+  (In p keys -> p < fold_left (fun a q => N.max a (q + 1)) keys acc) /\
+  acc <= fold_left (fun a q => N.max a (q + 1)) keys acc.
+Proof.
+  induction keys as [|k t IH]; simpl; intros acc p; [split; [intros []|apply N.le_refl]|].
+  destruct (IH (N.max acc (k + 1)) p) as [H1 H2]. split; [|lia].
+  intros [H|H]; [subst k; lia|exact (H1 H)].
+Qed.
+
+Lemma next_free_lt keys p : In p keys -> p < next_free keys.
+Proof. unfold next_free. apply next_free_bound. Qed.
+
+(* ================================================================== *)
+(* Part 3b: the object-store backend                                    *)
+(* ================================================================== *)
+Definition s3_wf (c : cat) (n : N) : Prop :=
+  NoDup (map fst (c_chunks c)) /\ forall p, In p (map fst (c_chunks c)) -> p < n.
+
+Definition s3_row (pe : path * centry) : crow :=
+  mkRow (fst pe) (e_level (snd pe)) (m_min (e_meta (snd pe))) (m_size (e_meta (snd pe))).
+
+Lemma s3_rows_eq c : s3_rows c = map s3_row (c_chunks c).
+Proof. reflexivity. Qed.
+
+Lemma s3_rows_paths c : map r_path (s3_rows c) = map fst (c_chunks c).
+Proof. rewrite s3_rows_eq, map_map. apply map_ext. intros [p e]; reflexivity. Qed.
+
+Lemma s3_find_row l p : find_row p (map s3_row l) = option_map (fun e => s3_row (p, e)) (aget N.eqb p l).
+Proof.
+  induction l as [|[k e] r IH]; simpl; [reflexivity|].
+  destruct (N.eqb p k) eqn:E; [apply N.eqb_eq in E; subst; reflexivity|exact IH].
+Qed.
+
+Lemma s3_lev_rows c p : lev_rows (s3_rows c) p = option_map e_level (aget N.eqb p (c_chunks c)).
+Proof.
+  unfold lev_rows. rewrite s3_rows_eq, s3_find_row. destruct (aget N.eqb p (c_chunks c)); reflexivity.
+Qed.
+
+Lemma s3_wf_rows c n : s3_wf c n -> rows_ok (s3_rows c) n.
+Proof.
+  intros [Hnd Hb]. split; [rewrite s3_rows_paths; exact Hnd|].
+  intros r Hr. apply Hb. rewrite <- s3_rows_paths. apply in_map. exact Hr.
+Qed.
+
+Lemma s3_fold_del1_chunks srcs : forall c,
+  c_chunks (fold_left s3_del1 srcs c) = fold_left (fun l p => adel N.eqb p l) srcs (c_chunks c).
+Proof. induction srcs as [|p t IH]; simpl; intros c; [reflexivity|]. rewrite IH. reflexivity. Qed.
+
+Lemma filter_map_rows srcs (l : list (path * centry)) :
+  map s3_row (filter (keep_not srcs) l) = filter (fun r => negb (memN (r_path r) srcs)) (map s3_row l).
+Proof.
+  induction l as [|[k e] r IH]; simpl; [reflexivity|].
+  unfold keep_not at 1. simpl. destruct (memN k srcs); simpl; rewrite IH; reflexivity.
+Qed.
+
+Lemma s3_merge_ok c t srcs m :
+  s3_wf c t -> (forall p, In p srcs -> In p (map r_path (s3_rows c))) ->
+  exists c2, s3_complete (s3_register c t m) srcs t = Some c2 /\
+             s3_rows c2 = merged_rows (s3_rows c) srcs t m /\ s3_wf c2 (t + 1).
+Proof.
+  intros [Hnd Hb] Hsub. rewrite s3_rows_paths in Hsub.
+  assert (Ht : ~ In t (map fst (c_chunks c))) by (intros Hc; specialize (Hb t Hc); lia).
+  assert (Hts : ~ In t srcs) by (intros Hc; apply Ht; apply Hsub; exact Hc).
+  rewrite s3_complete_eq. cbv zeta.
+  rewrite s3_fold_del1_chunks, fold_adel_filter.
+  assert (Hreg : c_chunks (s3_register c t m) = c_chunks c ++ [(t, mkEntry m 0)]).
+  { unfold s3_register. cbn [c_chunks]. apply aset_absent. exact Ht. }
+  rewrite Hreg, filter_app. cbn [filter]. rewrite (keep_not_true srcs t _ Hts).
+  assert (Htf : ~ In t (map fst (filter (keep_not srcs) (c_chunks c)))).
+  { intros Hc. apply filter_keys_in in Hc. apply Ht. apply Hc. }
+  rewrite (aget_app_r _ _ _ Htf). cbn [aget]. rewrite N.eqb_refl.
+  eexists. split; [reflexivity|]. split.
+  - unfold s3_rows. cbn [c_chunks e_meta]. fold s3_row. rewrite (aset_app_last _ _ _ _ Htf).
+    rewrite map_app. cbn [map]. unfold merged_rows. rewrite <- s3_rows_eq.
+    f_equal; [rewrite s3_rows_eq; apply filter_map_rows|].
+    unfold s3_row. cbn [fst snd e_level e_meta]. f_equal. f_equal. f_equal.
+    apply max_level_ext. intros p Hp. rewrite s3_lev_rows.
+    rewrite aget_app_l by (apply Hsub; exact Hp). reflexivity.
+  - split; cbn [c_chunks]; rewrite (aset_app_last _ _ _ _ Htf), map_app; cbn [map fst].
+    + apply nodup_app_iff. split; [apply nodup_filter_keys; exact Hnd|].
+      split; [constructor; [intros []|constructor]|].
+      intros x Hx [Hc|[]]. subst x. exact (Htf Hx).
+    + intros p Hp. apply in_app_or in Hp. destruct Hp as [Hp|[Hp|[]]].
+      * apply filter_keys_in in Hp. destruct Hp as [Hp _]. specialize (Hb p Hp). lia.
+      * subst p. lia.
+Qed.
+
+Lemma s3_l0_ok thr rows : NoDup (map r_path rows) ->
+  sel_ok 0 rows (s3_l0 thr rows) /\ forall g, In g (s3_l0 thr rows) -> g <> [].
+Proof. apply l0_groups_ok. Qed.
+
+Lemma s3_init_wf c : NoDup (map fst (c_chunks c)) -> s3_wf c (st_fresh (s3_init c)).
+Proof. intros H. split; [exact H|]. intros p Hp. simpl. apply next_free_lt. exact Hp. Qed.
+
+(* every catalog reached by a history of register / delete / complete has
+   duplicate-free keys *)
+Lemma s3_apply_nodup c o : NoDup (map fst (c_chunks c)) -> NoDup (map fst (c_chunks (fst (s3_apply c o)))).
+Proof.
+  intros H. destruct o as [p m|p|srcs tgt]; simpl.
+  - apply (nodup_aset N.eqb Neqb_spec). exact H.
+  - apply nodup_adel. exact H.
+  - rewrite s3_complete_eq. cbv zeta.
+    destruct (aget N.eqb tgt (c_chunks (fold_left s3_del1 srcs c))) eqn:E; simpl; [|exact H].
+    apply (nodup_aset N.eqb Neqb_spec). rewrite s3_fold_del1_chunks, fold_adel_filter.
+    apply nodup_filter_keys. exact H.
+Qed.
+
+Lemma s3_run_nodup h : NoDup (map fst (c_chunks (s3_run h))).
+Proof.
+  unfold s3_run. assert (H : NoDup (map fst (c_chunks cat_empty))) by constructor.
+  revert H. generalize cat_empty. induction h as [|o r IH]; simpl; intros c H; [exact H|].
+  apply IH. apply s3_apply_nodup. exact H.
+Qed.
+
+(* ================================================================== *)
+(* Part 3c: the in-memory backend                                       *)
+(* ================================================================== *)
+Definition local_wf (c : lcat) (n : N) : Prop :=
+  NoDup (map fst (l_levels c)) /\
+  (forall p, In p (map fst (l_levels c)) -> p < n) /\
+  (forall p, In p (map fst (l_chunks c)) -> p < n).
+
+Definition local_row (chunks : list (path * cmeta)) (pl : path * N) : list crow :=
+  match aget N.eqb (fst pl) chunks with
+  | Some m => [mkRow (fst pl) (snd pl) (m_min m) (m_size m)]
+  | None => []
+  end.
+
+Lemma local_rows_eq c : local_rows c = flat_map (local_row (l_chunks c)) (l_levels c).
+Proof. reflexivity. Qed.
+
+Lemma local_rows_in chunks lv r :
+  In r (flat_map (local_row chunks) lv) -> In (r_path r, r_level r) lv.
+Proof.
+  intros H. apply in_flat_map in H. destruct H as [[p l] [Hin Hr]]. unfold local_row in Hr. simpl in Hr.
+  destruct (aget N.eqb p chunks); [|contradiction]. destruct Hr as [Hr|[]]. subst r. exact Hin.
+Qed.
+
+Lemma local_rows_nodup chunks lv :
+  NoDup (map fst lv) -> NoDup (map r_path (flat_map (local_row chunks) lv)).
+Proof.
+  induction lv as [|[p l] t IH]; simpl; intros H; [constructor|].
+  inversion H as [|? ? Hni Hnd]; subst. unfold local_row at 1. simpl.
+  destruct (aget N.eqb p chunks); simpl; [|exact (IH Hnd)].
+  constructor; [|exact (IH Hnd)]. intros Hc. apply Hni. apply in_map_iff in Hc.
+  destruct Hc as [r [Hp Hr]]. apply local_rows_in in Hr. apply in_map_iff.
+  exists (r_path r, r_level r). split; [exact Hp|exact Hr].
+Qed.
+
+Lemma local_wf_rows c n : local_wf c n -> rows_ok (local_rows c) n.
+Proof.
+  intros [Hnd [Hb _]]. rewrite local_rows_eq. split; [apply local_rows_nodup; exact Hnd|].
+  intros r Hr. apply Hb. apply local_rows_in in Hr. apply in_map_iff.
+  exists (r_path r, r_level r). split; [reflexivity|exact Hr].
+Qed.
+
+Lemma local_delete_chunks c p : l_chunks (local_delete c p) = adel N.eqb p (l_chunks c).
+Proof.
+  unfold local_delete. destruct (aget N.eqb p (l_chunks c)) eqn:E; simpl; [reflexivity|].
+  symmetry. apply adel_absent. exact E.
+Qed.
+
+Lemma local_delete_levels c p : l_levels (local_delete c p) = adel N.eqb p (l_levels c).
+Proof. unfold local_delete. destruct (aget N.eqb p (l_chunks c)); reflexivity. Qed.
+
+Lemma local_fold_delete_chunks srcs : forall c,
+  l_chunks (fold_left local_delete srcs c) = fold_left (fun l p => adel N.eqb p l) srcs (l_chunks c).
+Proof.
+  induction srcs as [|p t IH]; simpl; intros c; [reflexivity|]. rewrite IH, local_delete_chunks. reflexivity.
+Qed.
+
+Lemma local_fold_delete_levels srcs : forall c,
+  l_levels (fold_left local_delete srcs c) = fold_left (fun l p => adel N.eqb p l) srcs (l_levels c).
+Proof.
+  induction srcs as [|p t IH]; simpl; intros c; [reflexivity|]. rewrite IH, local_delete_levels. reflexivity.
+Qed.
+
+Lemma local_rows_filter srcs chunks t m lv :
+  (forall p, In p (map fst lv) -> p <> t) ->
+  flat_map (local_row (filter (keep_not srcs) chunks ++ [(t, m)])) (filter (keep_not srcs) lv)
+  = filter (fun r => negb (memN (r_path r) srcs)) (flat_map (local_row chunks) lv).
+Proof.
+  induction lv as [|[p l] r IH]; simpl; intros Hne; [reflexivity|].
+  assert (IH' := IH (fun q Hq => Hne q (or_intror Hq))). clear IH.
+  unfold keep_not at 2. cbn [fst]. destruct (memN p srcs) eqn:Em; cbn [negb].
+  - rewrite filter_app, <- IH'. unfold local_row at 3. cbn [fst snd].
+    destruct (aget N.eqb p chunks); cbn [filter r_path]; [rewrite Em|]; reflexivity.
+  - cbn [flat_map]. rewrite filter_app, <- IH'. f_equal.
+    unfold local_row. cbn [fst snd].
+    assert (Hp : p <> t) by (apply Hne; left; reflexivity).
+    assert (Hg : aget N.eqb p (filter (keep_not srcs) chunks ++ [(t, m)]) = aget N.eqb p chunks).
+    { apply memN_false in Em. rewrite <- (aget_filter_keep srcs chunks p Em).
+      destruct (aget N.eqb p (filter (keep_not srcs) chunks)) eqn:Eg.
+      - rewrite aget_app_l; [exact Eg|]. apply (aget_In N.eqb Neqb_spec) in Eg.
+        apply in_map_iff. exists (p, c). split; [reflexivity|exact Eg].
+      - rewrite aget_app_r.
+        + simpl. replace (N.eqb p t) with false by (symmetry; apply N.eqb_neq; exact Hp). reflexivity.
+        + intros Hc. apply in_map_iff in Hc. destruct Hc as [[k v] [Hk Hin]]. simpl in Hk. subst k.
+          pose proof (In_aget_nodup N.eqb Neqb_spec) as _.
+          clear -Eg Hin. induction (filter (keep_not srcs) chunks) as [|[k' v'] r IH]; [contradiction|].
+          simpl in Eg. destruct (N.eqb p k') eqn:E; [discriminate|].
+          destruct Hin as [Hin|Hin]; [inversion Hin; subst; rewrite N.eqb_refl in E; discriminate|exact (IH Eg Hin)]. }
+    rewrite Hg. destruct (aget N.eqb p chunks); cbn [filter r_path]; [rewrite Em|]; reflexivity.
+Qed.
+
+Lemma local_merge_ok c t srcs m :
+  local_wf c t -> (forall p, In p srcs -> In p (map r_path (local_rows c))) ->
+  exists c2, local_complete (local_register c t m) srcs t = Some c2 /\
+             local_rows c2 = merged_rows (local_rows c) srcs t m /\ local_wf c2 (t + 1).
+Proof.
+  intros [Hnd [Hbl Hbc]] Hsub.
+  assert (Htl : ~ In t (map fst (l_levels c))) by (intros Hc; specialize (Hbl t Hc); lia).
+  assert (Htc : ~ In t (map fst (l_chunks c))) by (intros Hc; specialize (Hbc t Hc); lia).
+  assert (Hsubl : forall p, In p srcs -> In p (map fst (l_levels c))).
+  { intros p Hp. specialize (Hsub p Hp). apply in_map_iff in Hsub. destruct Hsub as [r [Hr Hin]].
+    rewrite local_rows_eq in Hin. apply local_rows_in in Hin. apply in_map_iff.
+    exists (r_path r, r_level r). split; [exact Hr|exact Hin]. }
+  assert (Hts : ~ In t srcs) by (intros Hc; apply Htl; apply Hsubl; exact Hc).
+  unfold local_complete.
+  rewrite local_fold_delete_chunks, local_fold_delete_levels, !fold_adel_filter.
+  assert (Hrc : l_chunks (local_register c t m) = l_chunks c ++ [(t, m)]).
+  { unfold local_register. cbn [l_chunks]. apply aset_absent. exact Htc. }
+  assert (Hrl : l_levels (local_register c t m) = l_levels c ++ [(t, 0)]).
+  { unfold local_register. cbn [l_levels]. apply aset_absent. exact Htl. }
+  rewrite Hrc, Hrl, !filter_app. cbn [filter]. rewrite !keep_not_true by exact Hts.
+  assert (Htfc : ~ In t (map fst (filter (keep_not srcs) (l_chunks c)))).
+  { intros Hc. apply filter_keys_in in Hc. apply Htc. apply Hc. }
+  assert (Htfl : ~ In t (map fst (filter (keep_not srcs) (l_levels c)))).
+  { intros Hc. apply filter_keys_in in Hc. apply Htl. apply Hc. }
+  rewrite (aget_app_r _ _ _ Htfc). cbn [aget]. rewrite N.eqb_refl.
+  eexists. split; [reflexivity|]. split.
+  - rewrite local_rows_eq. cbn [l_chunks l_levels]. rewrite (aset_app_last _ _ _ _ Htfl).
+    rewrite flat_map_app. cbn [flat_map]. rewrite app_nil_r. unfold merged_rows. f_equal.
+    + rewrite local_rows_eq. apply local_rows_filter. intros p Hp Hc. subst p. exact (Htl Hp).
+    + unfold local_row. cbn [fst snd]. rewrite (aget_app_r _ _ _ Htfc). cbn [aget]. rewrite N.eqb_refl.
+      f_equal. f_equal. f_equal. apply max_level_ext. intros p Hp.
+      rewrite aget_app_l by (apply Hsubl; exact Hp).
+      specialize (Hsub p Hp). apply in_map_iff in Hsub. destruct Hsub as [r [Hr Hin]].
+      unfold lev_rows. rewrite <- Hr.
+      rewrite (find_row_nodup _ _ (proj1 (local_wf_rows c t (conj Hnd (conj Hbl Hbc)))) Hin). cbn [option_map].
+      rewrite local_rows_eq in Hin. apply local_rows_in in Hin.
+      apply (In_aget_nodup N.eqb Neqb_spec); assumption.
+  - cbn [l_chunks l_levels]. rewrite (aset_app_last _ _ _ _ Htfl). split; [|split].
+    + rewrite map_app. cbn [map fst]. apply nodup_app_iff. split; [apply nodup_filter_keys; exact Hnd|].
+      split; [constructor; [intros []|constructor]|].
+      intros x Hx [Hc|[]]. subst x. exact (Htfl Hx).
+    + intros p Hp. rewrite map_app in Hp. apply in_app_or in Hp. destruct Hp as [Hp|[Hp|[]]].
+      * apply filter_keys_in in Hp. destruct Hp as [Hp _]. specialize (Hbl p Hp). lia.
+      * simpl in Hp. subst p. lia.
+    + intros p Hp. rewrite map_app in Hp. apply in_app_or in Hp. destruct Hp as [Hp|[Hp|[]]].
+      * apply filter_keys_in in Hp. destruct Hp as [Hp _]. specialize (Hbc p Hp). lia.
+      * simpl in Hp. subst p. lia.
+Qed.
+
+Lemma local_l0_ok thr rows : NoDup (map r_path rows) ->
+  sel_ok 0 rows (local_l0 thr rows) /\ forall g, In g (local_l0 thr rows) -> g <> [].
+Proof. apply l0_groups_ok. Qed.
+
+Lemma local_init_wf c : NoDup (map fst (l_levels c)) -> local_wf c (st_fresh (local_init c)).
+Proof.
+  intros H. split; [exact H|]. simpl. split; intros p Hp; apply next_free_lt; apply in_or_app; [right|left]; exact Hp.
+Qed.
+
+Lemma local_apply_nodup c o :
+  NoDup (map fst (l_levels c)) -> NoDup (map fst (l_levels (fst (local_apply c o)))).
+Proof.
+  intros H. destruct o as [p m|p|srcs tgt]; simpl.
+  - apply (nodup_aset N.eqb Neqb_spec). exact H.
+  - rewrite local_delete_levels. apply nodup_adel. exact H.
+  - unfold local_complete.
+    destruct (aget N.eqb tgt (l_chunks (fold_left local_delete srcs c))) eqn:E; simpl; [|exact H].
+    apply (nodup_aset N.eqb Neqb_spec). rewrite local_fold_delete_levels, fold_adel_filter.
+    apply nodup_filter_keys. exact H.
+Qed.
+
+Lemma local_run_nodup h : NoDup (map fst (l_levels (local_run h))).
+Proof.
+  unfold local_run. assert (H : NoDup (map fst (l_levels lcat_empty))) by constructor.
+  revert H. generalize lcat_empty. induction h as [|o r IH]; simpl; intros c H; [exact H|].
+  apply IH. apply local_apply_nodup. exact H.
+Qed.
